@@ -54,6 +54,8 @@ def run_budgeted(kind, opts, chunks):
             exc = exc_class(e)
         finally:
             sys.setprofile(None)
+        if exc in ("mem", "spin") and len(trace) > n0 + 2000:
+            del trace[n0 + 2000:]          # a runaway handler: keep the harness itself within its memory limit
         t = toks(trace[n0:])
         if exc:
             t.append("raise:" + exc)
@@ -106,9 +108,9 @@ def gen_stream(r, kind, opts):
         return stream, authresp, "valid"
     if how < .6:
         return stream[:r.randrange(12, len(stream) + 1)], authresp, "truncated"
-    if how < .8:
+    if how < .74:
         return mutate_fields(r, stream, None), authresp, "field-mutation"
-    if how < .89:
+    if how < .83:
         # zero-area rectangles and zero-area / zero-count sub-rectangles in every encoding that has them
         bypp = pf.bpp // 8
         px = lambda: bytes(r.randrange(256) for _ in range(bypp))
@@ -151,12 +153,14 @@ def gen_stream(r, kind, opts):
                         else:
                             rects += bytes([0])
         return b"".join(parts) + struct.pack("!BxH", 0, nrect) + rects + sess.bell(), authresp, "zero-area"
-    if how < .93:
+    if how < .95:
         # ZRLE with surplus / short tile data, zero dimensions
-        zr = enc_zrle(r, pf, 0, 0, r.choice([0, 1, 3, 64, 65]), r.choice([0, 1, 2, 64]))
+        zr = enc_zrle(r, pf, 0, 0, r.choice([0, 1, 3, 64, 65]), r.choice([0, 0, 1, 2, 64]))
         k = r.random()
-        if k < .4:
-            zr.zraw += bytes([r.choice([0, 1, 2, 3, 5, 16, 17, 128, 129, 130, 255])]) + bytes(r.randrange(256) for _ in range(r.choice([0, 1, 3, 9, 40])))
+        if k < .5:
+            # one more tile than the geometry has room for, of every sub-encoding class (raw, solid, packed palette 2..16, RLE, palette RLE)
+            sub = r.choice([0, 1, 2, 2, 3, 4, 5, 16, 16, 17, 127, 128, 129, 130, 255])
+            zr.zraw += bytes([sub]) + bytes(r.randrange(256) for _ in range(r.choice([0, 1, 3, 9, 40, 70])))
         elif k < .7:
             zr.zraw = zr.zraw[:r.randrange(len(zr.zraw) + 1)]
         else:
